@@ -66,6 +66,31 @@ CHECKS = {
             "payloads with a correct name are out of the statement's alphabet); bare OSError out of "
             "reboot()/bootload() is logged, not decided (pyserial wraps OS errors in SerialException).",
             "DESIGN.md section 4 C05"),
+    "C06": ("exploration",
+            "device-boundary byte log of a fake port (board acknowledges everything) compared per helper call with "
+            "a reference table transcribed from the EBB command documentation; legacy/EBB3 counterpart comparison",
+            "Every helper call observed (29 legacy + 29 EBB3 helpers + 16 counterpart pairs, 1.1e5 calls quick, "
+            "~1.4e7 thorough; arguments from {0, +-1, range edges, random}, optional arguments absent/None/0/non-zero, "
+            "resolutions -3..9, pause lengths around 0/750/1500 and random) wrote exactly the documented request "
+            "lines: every supplied argument present in the documented order, zero included, one CR per line, nothing "
+            "else; pauses in 1..750 ms chunks summing to n; LM suppressed only when neither axis can move; the two "
+            "layers emitted identical text; nothing sent and nothing raised without a port.",
+            "Trusted: the reference table in vmon/props/C06.py (written from the EBB command set documentation and the "
+            "helpers' docstrings, not from their format strings); V version probes of firmware-gated legacy helpers "
+            "are allowed in front of the command.",
+            "DESIGN.md section 4 C06"),
+    "C16": ("exploration",
+            "state assertions at a hook after every step: Ebb3Board simulator state and read-back values of the real "
+            "EBB3 methods compared with a reference model (32-byte array, nickname, motor enables + global mode); "
+            "motor request space enumerated completely",
+            "All 20 prior motor states x all (r1, r2) in {-2..8}^2 (2420 histories, complete in every run) plus random "
+            "request sequences; int32 edge values and random values x every slot 0..28; random interleavings of "
+            "4-byte/1-byte writes and reads at overlapping slots; nickname write/read with padding and leading "
+            "blanks (5e4 asserted steps quick, ~1e7 thorough): board memory always equalled the big-endian model, "
+            "every value read back equalled the value written, motors/mode matched the clamped request.",
+            "Trusted: Ebb3Board's documented SL/QL, ST/QT, EM/QE semantics (vmon/serialsim.py); when both requested "
+            "resolutions clamp to 0 the mode is unspecified and not checked.",
+            "DESIGN.md section 4 C16"),
     "C17": ("exploration",
             "runtime contract on the real max_rate_t3 + exact per-tick rate oracle, workload stratified by "
             "vertex position",
